@@ -1,7 +1,9 @@
 import Lean
-import H2V.Model.ConnDriver
+import H2V.Model.ConnStreams
 /-
-  ConnWakeP, part 0 — kernel-friendly handles on `Stream.sendData` and `Streams.popFrame`.
+  ConnFlowP, part 0 — kernel-friendly handles on `Stream.sendData` and `Streams.popFrame`.
+  (Technique and commands shared with the ConnWakeP lemma family — same text, own namespace, so that
+  the two families do not depend on each other's files.)
 
   The kernel cannot unfold these two model functions: `Stream::send_data` matches on
   `if prev < s1.capacity max then … else …` where `s1.bufferedSendData = wrapSubUsize …`, i.e. a
@@ -23,7 +25,7 @@ import H2V.Model.ConnDriver
 
   No axioms, no `unsafe`: both commands only call `addDecl`, every declaration goes through the kernel.
 -/
-namespace H2V.Lemmas.ConnWakeP
+namespace H2V.Lemmas.ConnFlowP
 open H2V H2V.Model H2V.Model.Conn
 
 open Lean Elab Command Meta in
@@ -91,26 +93,6 @@ abstract_const Streams.popFrame Stream.sendData popFrameC Streams.popFrame._f
 kernel_rfl popFrameC_zero : ∀ (sd : Stream → Nat → Nat → Stream × List String × Bool) (s : Streams) (maxLen : Nat),
     popFrameC sd 0 s maxLen = (s, none)
 
-/-- what follows the `match stream.pending_send.pop_front(buffer)` in `pop_frame`: requeue, transition, return -/
-def pfFinish (id : Nat) (isPendingReset : Bool) (s : Streams) (f : Streams.OutFrame) : Streams × Option Streams.OutFrame :=
-  let st := s.stream id
-  let s := if !st.pendingSend.isEmpty || st.state.isScheduledReset then (s.qPush .pendingSend id).1 else s
-  (s.transitionAfter id isPendingReset, some f)
-
-/-- the DATA arm of `pop_frame` once the chunk length `len` is known: the stream and connection windows
-    are charged (`sd` stands for `Stream::send_data`) -/
-def pfData (sd : Stream → Nat → Nat → Stream × List String × Bool) (s : Streams) (id len : Nat) (rest : List SFrame) : Streams :=
-  let s := s.modStream id fun st => { st with pendingSend := rest }
-  let (st', w, bad) := sd (s.stream id) len s.prio.maxBufferSize
-  let s := (s.setStream st').wake w
-  let s := if bad then s.panic "assertion failed: self.window_size.0 >= sz as i32 (stream)" else s
-  let s := s.modPrio fun p => { p with flow := (p.flow.assignCapacity len).1 }
-  let (fl, r) := s.prio.flow.sendData len
-  let s := s.modPrio fun p => { p with flow := fl }
-  match r with
-  | .error .assertFailed => s.panic "assertion failed: self.window_size.0 >= sz as i32 (connection)"
-  | _ => s
-
 kernel_rfl popFrameC_succ : ∀ (sd : Stream → Nat → Nat → Stream × List String × Bool) (fuel : Nat) (s : Streams) (maxLen : Nat),
     popFrameC sd (fuel + 1) s maxLen =
     ((match s.qPop .pendingSend with
@@ -118,6 +100,10 @@ kernel_rfl popFrameC_succ : ∀ (sd : Stream → Nat → Nat → Stream × List 
     | (s, some id) =>
       let st := s.stream id
       let isPendingReset := st.isPendingResetExpiration
+      let finish := fun (s : Streams) (f : Streams.OutFrame) =>
+        let st := s.stream id
+        let s := if !st.pendingSend.isEmpty || st.state.isScheduledReset then (s.qPush .pendingSend id).1 else s
+        (s.transitionAfter id isPendingReset, some f)
       match st.pendingSend with
       | .data sz eos :: rest =>
         let discard : Bool := match st.state.getScheduledReset with
@@ -135,13 +121,22 @@ kernel_rfl popFrameC_succ : ∀ (sd : Stream → Nat → Nat → Stream × List 
             if len > 0 && len > st.sendFlow.windowSz then
               popFrameC sd fuel s maxLen
             else
+              let s := s.modStream id fun st => { st with pendingSend := rest }
+              let (st', w, bad) := sd (s.stream id) len s.prio.maxBufferSize
+              let s := (s.setStream st').wake w
+              let s := if bad then s.panic "assertion failed: self.window_size.0 >= sz as i32 (stream)" else s
+              let s := s.modPrio fun p => { p with flow := (p.flow.assignCapacity len).1 }
+              let (fl, r) := s.prio.flow.sendData len
+              let s := s.modPrio fun p => { p with flow := fl }
+              let s := match r with
+                | .error .assertFailed => s.panic "assertion failed: self.window_size.0 >= sz as i32 (connection)"
+                | _ => s
               let flagEos := if sz > len then false else eos
-              pfFinish id isPendingReset (pfData sd s id len rest)
-                (.data len flagEos { key := id, sid := st.id, rest := sz - len, eos := eos })
+              finish s (.data len flagEos { key := id, sid := st.id, rest := sz - len, eos := eos })
       | .headers heos fields :: rest =>
-        pfFinish id isPendingReset (s.modStream id fun st => { st with pendingSend := rest }) (.headers st.id heos fields)
+        finish (s.modStream id fun st => { st with pendingSend := rest }) (.headers st.id heos fields)
       | .reset reason :: rest =>
-        pfFinish id isPendingReset (s.modStream id fun st => { st with pendingSend := rest }) (.reset st.id reason)
+        finish (s.modStream id fun st => { st with pendingSend := rest }) (.reset st.id reason)
       | .pushPromise pk pid fields :: rest =>
         let s := s.modStream id fun st => { st with pendingSend := rest }
         match s.store.findKey? pid with
@@ -157,13 +152,13 @@ kernel_rfl popFrameC_succ : ∀ (sd : Stream → Nat → Nat → Stream × List 
               if s.counts.canIncNumSendStreams then (((s.incNumSendStreams pushed).qPush .pendingSend pushed).1)
               else s.queueOpen pushed
             else s
-          pfFinish id isPendingReset s (.pushPromise st.id pid fields)
+          finish s (.pushPromise st.id pid fields)
       | [] =>
         match st.state.getScheduledReset with
         | some reason =>
           let s := s.modStreamW id fun st => st.setReset reason .library
-          pfFinish id isPendingReset s (.reset st.id reason)
+          finish s (.reset st.id reason)
         | none =>
           popFrameC sd fuel (s.transitionAfter id isPendingReset) maxLen) : Streams × Option Streams.OutFrame)
 
-end H2V.Lemmas.ConnWakeP
+end H2V.Lemmas.ConnFlowP
